@@ -95,12 +95,19 @@ ReplayOK(ds, m, target) ==
   ELSE LET d == Head(ds) IN d.a \in Addr /\ d.old = m[d.a] /\ ReplayOK(Tail(ds), [m EXCEPT ![d.a] = d.new], target)
 HookMsgs(o) == SelectSeq(o, LAMBDA x : x.k = "hook")
 Named(e) == IF e.act = "update_members" THEN {e.args.add[i].a : i \in 1..Len(e.args.add)} \cup SeqSet(e.args.remove) ELSE {e.by}
+\* "exactly the addresses the call touched": every member the call sets (also to the weight it already has) and
+\* every member it removes has an entry
+Touched(e) == IF e.act = "update_members"
+              THEN {e.args.add[i].a : i \in 1..Len(e.args.add)} \cup {r \in SeqSet(e.args.remove) : r \in Addr /\ members[r] >= 0}
+              ELSE {}
+Covers(ds, e) == \A a \in Touched(e) \cap Addr : \E j \in 1..Len(ds) : ds[j].a = a
 WellFormed(hs, e) ==
   /\ Len(hs) = Len(hooks)
   /\ \A i \in 1..Len(hs) : hs[i].to = hooks[i] /\ hs[i].diffs = hs[1].diffs
   /\ Len(hs) > 0 =>
        /\ ReplayOK(hs[1].diffs, members, members')
        /\ \A i \in 1..Len(hs[1].diffs) : hs[1].diffs[i].a \in Named(e)
+       /\ Covers(hs[1].diffs, e)
 C14_HooksTruthful == Step =>
   LET hs == HookMsgs(out') IN
   IF ~Ok THEN hs = <<>>
